@@ -236,7 +236,10 @@ def run(ctx):
             continue
         if re.match(r"E\d+", why):
             data = dict(kind="property-violated", what="an expansion the derive accepted does not compile", definition=ident, rustc=why, seed=ctx.seed)
-            if why.startswith("E0392"):
+            m = re.search(r"trait bound `(\w+)[^`]*: (?:ts_rs::)?TS` is not satisfied", why)
+            if m and m.group(1) in res["rejected"]:
+                pass     # refers to a definition the derive rejected with a diagnostic (dropped from the crate): no TS impl to find
+            elif why.startswith("E0392"):
                 pass     # unused type parameter: rustc rejects the item's own declaration before any derive runs
             elif "Default` is not satisfied" in why or "Default` is not implemented" in why or "Serialize` is not" in why or "Deserialize" in why:
                 pass     # serde's own requirements on generated items (skip needs Default): generator artefact, not the ts-rs derive
